@@ -559,9 +559,21 @@ class Runner:
             self.samples.append({"family": fam.name, "case": fam.describe(case), "python": po, "lean": res})
         fail = self.classify(fam, case, po, res)
         if fail is not None:
-            st["failures"] += 1
-            if st["failures"] <= 60:
-                self.failures.append(fail)
+            if getattr(fam, "known_findings_uncounted", False) and match_finding(fail, self._known_findings()) is not None:
+                # opt-in per family: a failure whose (unshrunk) signature is a listed known finding does
+                # not count towards the stop-after-300-failures limit, so a finding stratum keeps running
+                st["known_failures"] = st.get("known_failures", 0) + 1
+                if st["known_failures"] <= 12:
+                    self.failures.append(fail)
+            else:
+                st["failures"] += 1
+                if st["failures"] <= 60:
+                    self.failures.append(fail)
+
+    def _known_findings(self):
+        if not hasattr(self, "_kf"):
+            self._kf = load_findings(self.prop.id)
+        return self._kf
 
     def shrink(self, fam: Family, fail: Failure) -> Failure:
         cur = fail
